@@ -7,6 +7,8 @@ What the generator deliberately stays away from (not promised by the statements)
   * inline refs with name / actions / comment, inline many-to-many, inline composite refs;
   * notes that are not in normal form (leading/trailing blank lines, common indentation > 0);
   * identifiers containing `"` or newlines (a double-quoted DBML identifier cannot hold them);
+  * unless exotic=True: quoted identifiers containing `.` `,` `(` `)` or leading/trailing spaces (these have their
+    own obligation with per-site keys, C01.B.exotic-names);
   * two tables with the same schema+name, an alias equal to any table name or other alias,
     duplicate enum / group / column names, two refs over the same endpoint pair,
     a table in two groups, empty tables / enums / groups.
@@ -22,10 +24,12 @@ from .model import normalize
 
 PLAIN = ['users', 'orders', 'id', 'name', 'user_id', 'created_at', 'Status', 'x1', '_tmp', 'UPPER',
          'a', 'b2', 'items', 'Products', 'country_code', 'merchant', 'kind', 'total', 'email', 'ts']
-NEEDS_QUOTES = ['a b', 'é', 'a-b', '1x', 'order items', 'naïve café', '2fa', 'a/b', 'x y z', 'Ünï']
+NEEDS_QUOTES = ['a b', 'é', 'a-b', '1x', 'order items', 'naïve café', '2fa', 'a/b', 'x y z', 'Ünï', 'p:q', "o'k", '[k]',
+                '{w}']
 RESERVED = ['table', 'note', 'ref', 'indexes', 'enum', 'project', 'Note', 'TABLE']
-# quoted identifiers holding DBML punctuation (only in ~8% of the documents, see random_model)
-PUNCT = ['a.b', 'x,y', '(z)', ' lead', 'trail ', 'v1.2', 'p:q', "o'k", '[k]', '{w}']
+# "exotic" quoted identifiers: they contain `.`, `,`, `(`, `)` or leading/trailing spaces.  Opt-in only
+# (random_model(..., exotic=True)); the dedicated obligation C01.B.exotic-names enumerates them per name position.
+EXOTIC = ['a.b', 'x,y', '(z)', '(w', 'v)', ' lead', 'trail ']
 SCHEMAS = ['public', 'public', 'public', 's1', 'core', 'my schema', 'é', 'v2']
 
 TYPE_WORDS = ['int', 'integer', 'varchar', 'text', 'timestamp', 'bool', 'VARCHAR', 'uuid', 'jsonb', 'date']
@@ -62,7 +66,7 @@ def _pick_name(rng: random.Random, taken: set, reserved_ok: bool = True, punct: 
     for _ in range(200):
         r = rng.random()
         if punct and rng.random() < 0.2:
-            n = rng.choice(PUNCT)
+            n = rng.choice(EXOTIC)
         elif r < 0.62:
             n = rng.choice(PLAIN)
         elif r < 0.88 or not reserved_ok:
@@ -146,12 +150,13 @@ SIZES = {
 }
 
 
-def random_model(rng: random.Random, size: str = 'small', allow_properties: bool = False) -> Dict[str, Any]:
+def random_model(rng: random.Random, size: str = 'small', allow_properties: bool = False,
+                 exotic: bool = False) -> Dict[str, Any]:
     """A normalized abstract model of a well-formed database."""
     sz = SIZES[size]
     rich = rng.choice([0.5, 1.0, 1.0, 1.6])          # per-document feature density
     P = lambda p: min(0.95, p * rich)
-    punct = rng.random() < 0.08                      # this document may use punctuation inside quoted identifiers
+    punct = bool(exotic) and rng.random() < 0.5      # opt-in: exotic quoted identifiers (see EXOTIC)
     schemas = SCHEMAS + (['sch.x'] if punct else [])
 
     # ---- enums
